@@ -248,8 +248,11 @@ class Harness:
                 return H.default_data
             return EvaluatableData(body=cer, edifact_format=fmt, edifact_format_version=ver)
 
+        self.provider = SingletonTokenLogicProvider([self.rc_ev, self.fc_ev, self.hints_pr, self.pkg_res, self.other_rc_ev, self.other_fc_ev])
+        self.TokenLogicProvider = TokenLogicProvider
+
         def cfg(binder):
-            binder.bind(TokenLogicProvider, SingletonTokenLogicProvider([self.rc_ev, self.fc_ev, self.hints_pr, self.pkg_res, self.other_rc_ev, self.other_fc_ev]))
+            binder.bind(TokenLogicProvider, self.provider)
             binder.bind_to_provider(EvaluatableDataProvider, provider)
 
         inject.clear_and_configure(cfg)
@@ -323,7 +326,17 @@ _H = None
 
 
 def harness():
+    """the one harness of this process; rebuilt when somebody else re-configured the injector in the meantime (several checks in one process)"""
     global _H
+    if _H is not None:
+        import inject
+
+        try:
+            ours = inject.is_configured() and inject.instance(_H.TokenLogicProvider) is _H.provider
+        except Exception:  # pylint: disable=broad-except
+            ours = False
+        if not ours:
+            _H = None
     if _H is None:
         _H = Harness()
     return _H
